@@ -184,3 +184,30 @@ def is_list_val(v):
 @prim
 def as_list(v):
     return list(v)
+
+
+@prim
+def attr_ns(el, k):
+    """Namespace URI of attribute key k of el (None for a plain string key)."""
+    for kk in el.attrs:
+        if str(kk) == k:
+            return getattr(kk, 'namespace', None)
+    return None
+
+
+@prim
+def attr_local(el, k):
+    for kk in el.attrs:
+        if str(kk) == k:
+            return getattr(kk, 'name', None)
+    return None
+
+
+@prim
+def pat_match(p, s):
+    return p.match(s) is not None
+
+
+@prim
+def join_sp(xs):
+    return ' '.join(xs)
